@@ -197,9 +197,11 @@ _hostile = st.one_of(_u, st.sampled_from(["", "\"", "\\", "\\u0041", "\x00", "\x
 
 @st.composite
 def json_spec(draw):
+    from vf.pre import Pre
+    pre = Pre(draw, 24)     # per-node field flags come from pre-drawn integers (vf/pre.py)
     sp = draw(treegen.arb_spec(14))
     for _, s in treegen.spec_nodes(sp):
-        f = draw(st.integers(0, 63))
+        f = pre.int(0, 63)
         if f & 1:
             s["n"] = draw(_hostile)
         if f & 2:
